@@ -406,3 +406,71 @@ func CorpusCommitteeChange(o sink, variant string) {
 	r.o.Sample(fmt.Sprintf("%s: commits: %s", r.name, commitsStr(s)))
 	r.end()
 }
+
+// CorpusLeaderLockDowngraded: BFT.HighQC is both "the highest certificate a leader heard of" and the replica's own lock.
+// (1) round 0: Y gets a PROPOSE_VOTE certificate, the Byzantine leader withholds the PRECOMMIT: nobody locks, the
+// certificate stays with the Byzantine validator. (2) round 1: X is certified; A (replica 1) and L (replica 2) lock on it,
+// the COMMIT reaches only A, which commits X. (3) round 2 is led by L; its own ELECTION_VOTE (carrying the lock X@1) and
+// B's arrive first, the Byzantine ELECTION_VOTE carrying the old certificate Y@0 arrives LAST. The replacement test must
+// keep the higher certificate: a leader that takes the last valid one re-proposes Y, passes its own SafeNode (its lock IS
+// now Y), and L, the never-locked B and the Byzantine validator commit Y while A committed X.
+func CorpusLeaderLockDowngraded(o sink) {
+	const byz, A, L, B = 0, 1, 2, 3
+	cfg := bftsim.Config{N: 4, Powers: []uint64{1, 1, 1, 1}, Byz: []int{byz}, Root0: 10}
+	is := func(x int) func(int) bool { return func(i int) bool { return i == x } }
+	cfg.Salt = findSalt(cfg, map[bftsim.VR]func(int) bool{{Root: 10, Round: 0}: is(byz), {Root: 10, Round: 1}: is(byz), {Root: 10, Round: 2}: is(L)})
+	r := newRun(o, "corpus/leader-lock-downgraded", cfg)
+	r.sigSuffix = "leader-lock-downgraded"
+	s := r.s
+	all := all(s)
+	// (1) round 0: Y certified, PRECOMMIT withheld
+	r.elect(all, nil)
+	r.byzPropose(byz, nil, "fresh-Y")
+	r.deliverAll(nil)
+	r.phases([]int{A, L, B}) // PROPOSE
+	r.phases(all)            // PROPOSE_VOTE
+	r.deliverAll(nil)
+	r.phase(byz) // PRECOMMIT at the leader: the certificate exists now
+	r.dropAll()
+	r.toElection(all)
+	certY := s.CertWithProposal(s.FindCert(lib.Phase_PROPOSE_VOTE, 1, func(v bftsim.VR) bool { return v.Round == 0 }))
+	// (2) round 1: X certified, A and L lock, only A commits
+	r.elect(all, nil)
+	r.byzPropose(byz, nil, "fresh-X")
+	r.deliverAll(nil)
+	r.phases([]int{A, L, B}) // PROPOSE
+	r.phases(all)            // PROPOSE_VOTE
+	r.deliverAll(nil)
+	r.phases(r.inRound(all, 1)) // PRECOMMIT
+	r.deliverAll(func(e *bftsim.Envelope) bool { return e.To != B })
+	r.dropAll()
+	r.phases(r.inRound(all, 1)) // PRECOMMIT_VOTE: A, L (and the Byzantine one) lock on X; B interrupts
+	r.deliverAll(nil)
+	r.phases(r.inRound(all, 1)) // COMMIT
+	r.deliverAll(func(e *bftsim.Envelope) bool { return e.To == A })
+	r.dropAll()
+	r.phases(r.inRound(all, 1)) // COMMIT_PROCESS: A commits X
+	if certY == nil || !committed(s, A) || s.Nodes[L].B.HighQC == nil {
+		r.o.Count("leader-lock-downgraded:setup-failed")
+		r.end()
+		return
+	}
+	live := liveOf(s, all)
+	r.toElection(live)
+	// (3) round 2, leader L: the replayed certificate arrives last
+	r.phases(live) // ELECTION
+	r.dropAll()
+	r.phases(live) // ELECTION_VOTE
+	s.Take(func(e *bftsim.Envelope) bool { return e.From == byz && e.Kind == "ELECTION_VOTE" })
+	r.deliverAll(nil) // L's own vote and B's
+	before := s.State(L)
+	r.deliver(s.ByzElectionVote(byz, bftsim.VR{Root: 10, Round: 2}, L, certY, L))
+	s.Take(func(e *bftsim.Envelope) bool { return e.From == byz && e.Kind == "ELECTION_VOTE" })
+	r.log("byz %d replays the round-0 certificate of Y in an ELECTION_VOTE to the locked leader %d, delivered last", byz, L)
+	r.o.Count("byz:election-vote-replays-older-certificate-last")
+	after := s.State(L)
+	s.ByzForgetLock(byz)
+	r.runRound(live, 0)
+	r.o.Sample(fmt.Sprintf("%s: leader before the replayed vote: %s; after: %s; commits: %s", r.name, before, after, commitsStr(s)))
+	r.end()
+}
